@@ -34,7 +34,7 @@ TIERS = {
     "quick": {"budget_s": 110, "exhaustive": True, "reps": 1},
     "thorough": {"budget_s": 1500, "exhaustive": True, "reps": 3},
 }
-PARTS = ["slots_part", "tables_part"]
+PARTS = ["slots_part", "tables_part", "interleave_part"]
 # no version, and every MapServer version from below the oldest to above the newest boundary named in a schema
 # (minVersion / maxVersion values run from 4.0 to 8.2), in the 0.2 steps MapServer releases use
 VERSIONS = [None] + [round(3.8 + 0.2 * i, 1) for i in range(25)]
@@ -462,7 +462,74 @@ def _plain(x):
     return x
 
 
+def interleave_check(parent, a, b, order):
+    """children of two types, interleaved in the given order, are each stored under the key of their own type, in
+    source order, and the parent still validates (a block type is stored consistently whatever stands around it)"""
+    W = env.Workers.get()
+    kids = {"a": a, "b": b}
+    n = {"a": 0, "b": 0}
+    items = []
+    for x in order:
+        t = kids[x]
+        n[x] += 1
+        body = [["attr", "type", "enum", "POINT"]] if t == "layer" else []
+        if "name" in vocab.slots(t) and vocab.slots(t)["name"].alts[0].shape == "string":
+            body.append(["attr", "name", "str", f"{x}{n[x]}"])
+        items.append(["obj", {"t": t, "items": body}])
+    if parent == "layer":
+        items.append(["attr", "type", "enum", "POINT"])
+    doc = [{"t": parent, "items": items}]
+    case = {"interleave": [parent, a, b, order]}
+    text = render.render(doc).text
+    try:
+        d = W.loads(text)
+    except Exception as e:
+        return [Discrepancy(f"interleave_load:{parent}", f"{parent} with {order} children ({a}, {b}) rejected: {e!s:.100}", case)]
+    diffs = refdict.compare(refdict.refdict(doc), d)
+    if diffs:
+        return [Discrepancy(f"interleave_store:{parent}", f"{parent} with children {[kids[x] for x in order]}: at {diffs[0][0]}: {diffs[0][1]}", case)]
+    try:
+        msgs = [m for m in W.validator().validate(d, schema_name=parent) if "is a required property" not in m.get("error", "")]
+    except Exception as e:
+        return [Discrepancy(f"interleave_validate_raises:{parent}", f"validate raised {type(e).__name__}: {e!s:.100}", case)]
+    if msgs:
+        return [Discrepancy(f"interleave_validate:{parent}:{msgs[0]['message']}", f"{parent} with children {[kids[x] for x in order]} does not validate: {msgs[0]['error']:.120}", case)]
+    return []
+
+
+def interleave_part(acc: Acc, tier, shard, nshards):
+    """exhaustive: every parent type x every ordered pair of its child types x the orders ABA, ABAB, AABA, BAB"""
+    idx = 0
+    by_parent = {}
+    for (p, k, c, lst) in vocab.child_edges():
+        if p == "symbolset" or (c == "symbol" and p in ("style", "class")):
+            continue   # (KF16: inline SYMBOL under STYLE / CLASS)
+        by_parent.setdefault(p, []).append((c, lst))
+    for parent, kids in sorted(by_parent.items()):
+        for (a, la) in kids:
+            for (b, lb) in kids:
+                if a == b or not la:
+                    continue   # the type given again must be a list type; the one in between may be a singleton
+                for order in (("aba", "abab", "aaba") if lb else ("aba", "aaba")):
+                    mx = next((al.node.get("maxItems") for al in vocab.slots(parent)[refdict.plural(a)].alts if al.shape == "objlist"), None) \
+                        if refdict.plural(a) in vocab.slots(parent) else None
+                    if mx is not None and order.count("a") > mx:
+                        continue
+                    idx += 1
+                    if idx % nshards != shard:
+                        continue
+                    acc.evaluations += 1
+                    acc.exhaustive_cases += 1
+                    acc.nontrivial.add(env.fp(["interleave", parent, a, b, order]))
+                    acc.cls("interleave:" + order)
+                    for dd in interleave_check(parent, a, b, order):
+                        if not any(v["bucket"] == dd.bucket for v in acc.violations):
+                            acc.violations.append({**dd.as_dict(), "search": "interleave", "shard": shard, "round": 0, "seed": env.verif_seed(), "tier": tier})
+
+
 def replay(case):
+    if "interleave" in case:
+        return interleave_check(*case["interleave"])
     if "doc" in case:
         return check_case(case["doc"], case["info"], case)
     acc = Acc()
